@@ -90,12 +90,32 @@ impl<'a> G<'a> {
   }
 
   fn pattern(&mut self, nest: u32) -> String {
-    match self.pick(9) {
+    // (the generated array pattern hangs off the high part of the choice word, so that small / older choice words decode as before)
+    let w = self.next() as usize;
+    match if w % 9 == 7 && (w / 9) % 2 == 1 { 9 } else { w % 9 } {
       0 => "*".to_string(), 1 => self.number(), 2 => self.ident(), 3 => self.string(),
       4 if nest > 0 => { let (a, b) = (self.pattern(nest - 1), self.pattern(nest - 1)); format!("({}, {})", a, b) }
       5 => format!(":{}", self.from(&["red", "none", "Done"])),
       6 if nest > 0 => { let a = self.pattern(nest - 1); format!(":{}({})", self.from(&["some", "ok"]), a) }
       7 => self.from(&["[h ...]", "[... l]", "[]", "[a, b | rest]", "[x … y]", "[x]"]).to_string(),
+      9 => {
+        // generated array pattern: 0-3 element patterns (names, wildcards, numbers), optionally a spread (… / ... / |) and 0-3 more
+        self.feat("array-pattern-generated");
+        let sep = if self.pick(3) == 0 { ", " } else { " " };
+        let elems = |g: &mut Self, n: usize| -> Vec<String> { (0..n).map(|_| match g.pick(5) { 0 => "*".to_string(), 1 => g.number(), _ => g.ident() }).collect() };
+        let (np, ns) = (self.pick(4), self.pick(4));
+        let pre = elems(self, np);
+        let suf = elems(self, ns);
+        let spread = self.from(&["", "…", "...", "|", "…", "|"]).to_string();
+        // `[| a b]` is not an array pattern: the parser reads it as an expression (a matrix literal written with a leading bar), which the
+        // formatter writes as `[a b]` — an array pattern when read back (observation in DESIGN 8.7, excluded here by construction)
+        let spread = if pre.is_empty() && spread == "|" { "…".to_string() } else { spread };
+        let mut parts: Vec<String> = vec![];
+        if !pre.is_empty() { parts.push(pre.join(sep)); }
+        if !spread.is_empty() { parts.push(spread.clone()); }
+        if !suf.is_empty() && !spread.is_empty() { parts.push(suf.join(" ")); }
+        format!("[{}]", parts.join(" "))
+      }
       _ => self.from(&["true", "false", "_"]).to_string(),
     }
   }
